@@ -484,6 +484,7 @@ def gen_serde(rng, n):
     for ty in TYPES:
         for v in type_values(rng, ty, n):
             out.append(Case("serw", [ty.encode(), str(v).encode()], {"kind": "serw", "ty": ty, "v": v}))
+            out.append(Case("viw", [ty.encode(), str(v).encode()], {"kind": "viw", "ty": ty, "v": v}))
     # input: literals at every type's edges (and one beyond), read into every type
     edges = set()
     for lo, hi in TYPES.values():
@@ -596,6 +597,15 @@ def oracle(case, line):
             else:
                 return "%s value %d written as %s by route %s" % (ty, v, r, route)
         return None
+    if case.cmd == "viw":
+        ty, v = case.meta["ty"], case.meta["v"]
+        r = f.get("value")
+        # lossless or rejected: the exact integer, or an error (128-bit sources are refused outright: serde's default visit_i128 / u128)
+        if I64_MIN <= v <= I64_MAX:
+            if r == "ok:%d" % v or (r == "err" and ty in WIDE):
+                return None
+            return "%s value %d handed to toml::Value's visitor becomes %s" % (ty, v, r)
+        return None if r == "err" else "%s value %d (beyond i64) handed to toml::Value's visitor becomes %s instead of an error" % (ty, v, r)
     if case.cmd == "dew":
         ty, v = case.meta["ty"], case.meta["v"]
         lo, hi = TYPES[ty]
@@ -631,6 +641,8 @@ def model_norm(line):
 
 def compare(case, model_line, impl_line):
     il = impl_line
+    if case.cmd == "viw":
+        return None          # oracle only: the visitor of toml::Value fed by a foreign serde source has no model counterpart
     if case.cmd in ("f64w", "f32w"):
         # `rt=` needs the final binary rounding, which the model leaves to the differ
         il = re.sub(r" rt=\w+$", "", il)
